@@ -119,12 +119,13 @@ fn is_ambiguous_value(s: &str, yaml_12: bool) -> bool {
         return true;
     }
 
-    // Quote non-YAML-1.2 float spellings too (e.g. "nan", "inf").
+    // Quote non-YAML-1.2 float spellings too (e.g. "nan", "inf", "-nan", "+Infinity"): the
+    // float parser accepts them with an optional sign.
     // This preserves round-tripping of strings and matches tests.
-    s.eq_ignore_ascii_case("nan")
-        || s.eq_ignore_ascii_case("inf")
-        || s.eq_ignore_ascii_case("+inf")
-        || s.eq_ignore_ascii_case("-inf")
+    let unsigned = s.strip_prefix(['+', '-']).unwrap_or(s);
+    unsigned.eq_ignore_ascii_case("nan")
+        || unsigned.eq_ignore_ascii_case("inf")
+        || unsigned.eq_ignore_ascii_case("infinity")
 }
 
 /// Controls quoting behavior of the serializer.
